@@ -4,55 +4,60 @@
  * Harness style: the real client.c is included textually; functions of other translation units that have
  * their own proof (dns_decode, unpack_data, the codecs, build_hostname, dns_encode) are stubs carrying their
  * contract and recording how they were called; library/OS functions are models. */
-#include <stddef.h>
-#include "lib/verif.h"
+#define VERIF_REACH() __CPROVER_assert(0, "VERIF_REACH: code after the call is reachable (must fail)")
+/* No system header is included here: the translation unit under contract is the `gcc -E` text of the real
+ * client.c (with the 64 KB buffers shrunk by must-fire rules, see evidence.extraction_drops), which brings
+ * every declaration itself; the macros below redirect library calls and calls to helpers that have their
+ * own proof, keeping the real definitions under the name verif_real_*. */
 int nondet_int(void);
 unsigned nondet_unsigned(void);
 long nondet_long(void);
-size_t nondet_size_t(void);
+unsigned long nondet_size_t(void);
 unsigned char nondet_uchar(void);
 _Bool nondet_bool(void);
 
-#define main client_main_unused
 #define time verif_time
-#define recvfrom verif_recvfrom
-#define sendto verif_sendto
-#define select verif_select
 #define sleep verif_sleep
 #define warn verif_warn
 #define warnx verif_warnx
 #define fprintf verif_fprintf
 #define uncompress verif_uncompress
-#define compress2 verif_compress2
 #define memcpy verif_memcpy_c
 #define strlen verif_strlen_c
-#include <sys/types.h>
-#include <sys/socket.h>
-#include <sys/select.h>
-#include <time.h>
-#include <stdio.h>
-#include <string.h>
-#include <zlib.h>
-#undef memcpy
-#undef strlen
-size_t g_m;                         /* ghost: arbitrary byte index for copy models */
-static void *verif_memcpy_c(void *dst, const void *src, size_t n);
-static size_t verif_strlen_c(const char *s);
-#define memcpy verif_memcpy_c
-#define strlen verif_strlen_c
-#include <client.c>
+unsigned long g_m;                         /* ghost: arbitrary byte index for copy models */
+static void *verif_memcpy_c(void *dst, const void *src, unsigned long n);
+static unsigned long verif_strlen_c(const char *s);
+#ifdef STUB_TUNNEL
+/* read_dns_withq(int dns_fd, ...) is the definition; the calls pass dns_fd */
+#define RDSEL_int verif_real_read_dns_withq(int
+#define RDSEL_dns_fd verif_stub_read_dns_withq(dns_fd
+#define read_dns_withq(a, b, c, d, e) RDSEL_##a, b, c, d, e)
+#define SPSEL_int verif_real_send_ping(int
+#define SPSEL_dns_fd verif_stub_send_ping(dns_fd
+#define send_ping(a) SPSEL_##a)
+#define SCSEL_int verif_real_send_chunk(int
+#define SCSEL_dns_fd verif_stub_send_chunk(dns_fd
+#define send_chunk(a) SCSEL_##a)
+struct query;
+static int verif_stub_read_dns_withq(int dns_fd, int tun_fd, char *buf, int buflen, struct query *q);
+static void verif_stub_send_ping(int fd);
+static void verif_stub_send_chunk(int fd);
+#endif
+#include VERIF_SHRUNK_TU
+#include VERIF_SHRUNK_MACROS
 #undef memcpy
 #undef strlen
 #undef time
-#undef recvfrom
-#undef sendto
-#undef select
 #undef sleep
 #undef warn
 #undef warnx
 #undef fprintf
 #undef uncompress
-#undef compress2
+#ifdef STUB_TUNNEL
+#undef read_dns_withq
+#undef send_ping
+#undef send_chunk
+#endif
 
 /* ---- library / OS models ---------------------------------------------------------------------- */
 static time_t g_now;
@@ -161,3 +166,99 @@ void h_namedec(void)
 	__CPROVER_assert(hostname || txt || c == 'r' || c == 'R' || (r == 0 && !g_dec_calls && !g_unp_calls), "any other first character: nothing decoded");
 	VERIF_REACH();
 }
+
+/* ---- client tunnel_dns: downstream reassembly, upstream acks, reply matching (C06, C01) ------------------ */
+#ifdef STUB_TUNNEL
+static int g_tun_writes, g_pings, g_chunks, g_unz_calls;
+static const void *g_tun_data; static size_t g_tun_len;
+static const void *g_unz_src, *g_unz_dst; static size_t g_unz_srclen, g_unz_out; static int g_unz_rc;
+int write_tun(int fd, char *data, size_t len) { g_tun_writes++; g_tun_data = data; g_tun_len = len; return (int)len; }
+int recent_seqno(int ourseqno, int gotseqno) { return nondet_bool(); }      /* the window function itself: group common_recent_seqno */
+void write_dns_error_unused(void);
+int verif_uncompress(unsigned char *dest, unsigned long *destLen, const unsigned char *source, unsigned long sourceLen)
+{
+	/* zlib (external, assumption A7): writes at most *destLen bytes, sets *destLen, Z_OK or an error */
+	__CPROVER_assert(__CPROVER_w_ok(dest, *destLen), "uncompress: output writable for *destLen bytes");
+	__CPROVER_assert(sourceLen == 0 || __CPROVER_r_ok(source, sourceLen), "uncompress: input readable for sourceLen bytes");
+	g_unz_calls++; g_unz_src = source; g_unz_srclen = sourceLen; g_unz_dst = dest;
+	unsigned long n = nondet_size_t();
+	__CPROVER_assume(n <= *destLen);
+	if (*destLen) __CPROVER_havoc_slice(dest, *destLen);
+	g_unz_rc = nondet_bool() ? 0 : -3;
+	if (g_unz_rc == 0) { *destLen = n; g_unz_out = n; }
+	return g_unz_rc;
+}
+static void verif_stub_send_ping(int fd) { g_pings++; }
+static void verif_stub_send_chunk(int fd)
+{
+	/* contract of send_chunk: sends the next fragment and records how many bytes of the packet it carries */
+	g_chunks++;
+	outpkt.sentlen = nondet_int();
+	__CPROVER_assume(outpkt.sentlen >= 0 && outpkt.sentlen <= outpkt.len - outpkt.offset);
+}
+/* contract of read_dns_withq in DNS mode (proved on the real function in group cli_read_dns): result -1..buflen,
+ * buf arbitrary, the query object filled with arbitrary id / type / rcode and a NUL-terminated name; no tun write */
+static _Bool g_rd_badip; static int g_rd_rv; static unsigned char g_rd_b0, g_rd_b1, g_rd_ghost; static unsigned short g_rd_id; static char g_rd_c0;
+static int verif_stub_read_dns_withq(int dns_fd, int tun_fd, char *buf, int buflen, struct query *q)
+{
+	__CPROVER_assert(buflen >= 2 && __CPROVER_w_ok(buf, buflen), "read_dns_withq: reply buffer writable for buflen bytes");
+	__CPROVER_havoc_slice(buf, buflen);
+	__CPROVER_havoc_object(q);
+	q->name[sizeof(q->name) - 1] = 0;
+	int rv = nondet_int();
+	__CPROVER_assume(rv >= -1 && rv <= buflen);
+	g_rd_rv = rv; g_rd_b0 = (unsigned char)buf[0]; g_rd_b1 = (unsigned char)buf[1]; g_rd_id = q->id; g_rd_c0 = q->name[0];
+	g_rd_ghost = (2 + g_m < (size_t)buflen) ? (unsigned char)buf[2 + g_m] : 0;
+	g_rd_badip = rv == 5 && buf[0] == 'B' && buf[1] == 'A' && buf[2] == 'D' && buf[3] == 'I' && buf[4] == 'P';
+	return rv;
+}
+/* representation invariant of the client's packet state */
+#define CLIENT_WF() (inpkt.len >= 0 && inpkt.len <= (int)sizeof(inpkt.data) && outpkt.len >= 0 && outpkt.len <= (int)sizeof(outpkt.data) && \
+	outpkt.offset >= 0 && outpkt.offset <= outpkt.len && outpkt.sentlen >= 0 && outpkt.sentlen <= outpkt.len - outpkt.offset)
+void h_tunnel_dns(void)
+{
+	__CPROVER_havoc_object(&inpkt); __CPROVER_havoc_object(&outpkt);
+	__CPROVER_assume(CLIENT_WF());
+	conn = CONN_DNS_NULL;
+	chunkid = (unsigned short)nondet_int(); chunkid_prev = (unsigned short)nondet_int(); chunkid_prev2 = (unsigned short)nondet_int();
+	userid_char = (char)nondet_int(); userid_char2 = (char)nondet_int();
+	lazymode = nondet_int(); selecttimeout = nondet_int(); send_ping_soon = nondet_long();
+	__CPROVER_assume(send_ping_soon >= 0 && send_ping_soon <= 1000);
+	g_tun_writes = g_pings = g_chunks = g_unz_calls = 0;
+	int in_len0 = inpkt.len, out_len0 = outpkt.len, out_off0 = outpkt.offset, out_sent0 = outpkt.sentlen;
+	char in_seq0 = inpkt.seqno, in_frag0 = inpkt.fragment, out_seq0 = outpkt.seqno, out_frag0 = outpkt.fragment;
+	int r = tunnel_dns(7, 8);
+	int seq = (g_rd_b1 >> 5) & 7, frag = (g_rd_b1 >> 1) & 15, last = g_rd_b1 & 1, ack_seq = (g_rd_b0 >> 4) & 7, ack_frag = g_rd_b0 & 15;
+	_Bool ours = g_rd_c0 == 'P' || g_rd_c0 == 'p' || g_rd_c0 == userid_char || g_rd_c0 == userid_char2;
+	_Bool recent = g_rd_id == chunkid || g_rd_id == chunkid_prev || g_rd_id == chunkid_prev2;
+	_Bool in_same = inpkt.len == in_len0 && inpkt.seqno == in_seq0 && inpkt.fragment == in_frag0;
+	_Bool out_same = outpkt.len == out_len0 && outpkt.offset == out_off0 && outpkt.sentlen == out_sent0 && outpkt.seqno == out_seq0 && outpkt.fragment == out_frag0;
+	/* C06: replies that do not match our recent queries are ignored */
+	__CPROVER_assert((ours && recent && g_rd_rv >= 2 && !g_rd_badip) || (g_tun_writes == 0 && g_unz_calls == 0 && in_same && out_same && g_chunks == 0), "a reply that is not to one of our three most recent queries, does not start with our letter, or carries no data header changes nothing and delivers nothing");
+	__CPROVER_assert(CLIENT_WF(), "the packet state invariant is preserved");
+	/* C01: what reaches the tun device */
+	__CPROVER_assert(g_tun_writes <= 1 && g_unz_calls <= 1, "at most one packet is delivered per reply");
+	__CPROVER_assert(g_tun_writes == 0 || (g_unz_calls == 1 && g_unz_rc == 0 && g_tun_data == g_unz_dst && g_tun_len == g_unz_out && last), "only a successfully inflated packet is written to tun, with exactly the bytes and length zlib produced, and only on the last-fragment flag");
+	__CPROVER_assert(g_unz_calls == 0 || (g_unz_src == (const void *)inpkt.data && g_unz_srclen <= sizeof(inpkt.data)), "zlib is given the reassembly buffer and its fill level");
+	{
+		/* fragments appended in this call */
+		long base = inpkt.seqno != in_seq0 ? 0 : in_len0;           /* a reply with a new sequence number restarts the buffer */
+		long appended = (g_unz_calls ? (long)g_unz_srclen : (long)inpkt.len) - base;
+		_Bool dup = seq == in_seq0 && frag <= in_frag0 && !(in_frag0 == 0 && frag == 0 && in_len0 == 0);
+		_Bool gap = seq == in_seq0 && frag > in_frag0 + 1;
+		__CPROVER_assert(!(dup || gap) || (in_same && g_unz_calls == 0 && g_tun_writes == 0), "a duplicate of a fragment already received, or a fragment after a gap, is not appended");
+		if (g_unz_calls || inpkt.len > base) {
+			__CPROVER_assert(appended >= 0 && appended <= g_rd_rv - 2, "only bytes of this reply behind its 2-byte header are appended");
+			__CPROVER_assert(!(g_m < (size_t)appended) || (unsigned char)inpkt.data[base + g_m] == g_rd_ghost, "appended bytes are the reply's bytes in order, placed at the fill level");
+			__CPROVER_assert(inpkt.fragment == (char)frag && inpkt.seqno == (char)seq, "the fragment and sequence numbers of the reply are recorded");
+		}
+	}
+	/* upstream: only a matching ack advances, by exactly the bytes sent */
+	{
+		_Bool ack = ours && recent && g_rd_rv >= 2 && !g_rd_badip && out_len0 != 0 && ack_seq == out_seq0 && ack_frag == out_frag0;
+		__CPROVER_assert(ack || out_same, "only an ack for the fragment last sent moves the upstream packet");
+		__CPROVER_assert(!ack || (out_off0 + out_sent0 >= out_len0 ? (outpkt.len == 0 && outpkt.offset == 0 && outpkt.sentlen == 0) : (outpkt.offset == out_off0 + out_sent0 && outpkt.fragment == (char)(out_frag0 + 1) && outpkt.len == out_len0 && g_chunks == 1)), "a matching ack advances by exactly the bytes sent (next fragment sent) or completes the packet");
+	}
+	VERIF_REACH();
+}
+#endif
